@@ -3,7 +3,7 @@
    the specification, the edits and the transcription function; the correspondence check
    instantiates it with rockit itself (evolved OCP versus freshly written OCP). *)
 From Coq Require Import List Bool.
-From RV Require Import Mech.History Proofs.HistProofs.
+From RV Require Import Mech.History Proofs.HistProofs Proofs.VacuityB.
 Import ListNotations.
 
 Theorem C13_history_independent :
@@ -17,6 +17,25 @@ Theorem C13_history_independent :
     = Some (transcribe (final_spec Spec Edit Upd apply_edit apply_upd sp ops)).
 Proof. intros. apply history_independent. assumption. Qed.
 Print Assumptions C13_history_independent.
+
+(* the same with the hypothesis on the live-update oracle only ALONG THE HISTORY (vacuity audit): the global form above
+   asks every update to commute with transcription at every specification, which no real transcription offers (an update it is
+   never asked to perform at that specification may well not commute); here it is asked exactly at the specifications the
+   history reaches, for the updates the history performs.  C13_local_hypothesis_weaker (Proofs/VacuityB.v) exhibits an oracle
+   that fails the global hypothesis and meets this one. *)
+Theorem C13_history_independent_along :
+  forall (Spec Edit Upd NLP : Type)
+         (apply_edit : Spec -> Edit -> Spec) (apply_upd : Spec -> Upd -> Spec)
+         (transcribe : Spec -> NLP) (live_upd : NLP -> Upd -> NLP)
+         (sp : Spec) (ops : list (hop Edit Upd)),
+    (forall pre u post, ops = pre ++ HUpd Edit Upd u :: post ->
+       live_upd (transcribe (final_spec Spec Edit Upd apply_edit apply_upd sp pre)) u
+       = transcribe (apply_upd (final_spec Spec Edit Upd apply_edit apply_upd sp pre) u)) ->
+    next_nlp Spec Edit Upd NLP apply_edit apply_upd transcribe live_upd
+             (hrun Spec Edit Upd NLP apply_edit apply_upd transcribe live_upd (hinit Spec NLP sp) ops)
+    = Some (transcribe (final_spec Spec Edit Upd apply_edit apply_upd sp ops)).
+Proof. intros Spec Edit Upd NLP ae au tr lu sp ops H. exact (history_independent_local Spec Edit Upd NLP ae au tr lu sp ops H). Qed.
+Print Assumptions C13_history_independent_along.
 
 Theorem C13_query_idempotent_and_preserves_declaration :
   forall (Spec Edit Upd NLP : Type)
